@@ -29,6 +29,15 @@ def run(ctx):
     ctx.run_rule("R1-sink-inventory", r1_sinks, F)
     ctx.run_rule("R2-gates", r2_gates, F)
     ctx.run_rule("R3-check-shape", r3_shape, F)
+    from rules import c05, c02
+    ctx.run_rule("R5-zc-adapters", c02.zc_adapters, F, "R5-zc-adapters")
+    vf.NOUPD[0] = True
+    vf.NOCAST[0] = True
+    try:
+        ctx.run_rule("R4-handle-flags", c05.handle_flag_tracking, F, "R4-handle-flags")
+    finally:
+        vf.NOUPD[0] = False
+        vf.NOCAST[0] = False
     ctx.assumptions += ["files that did not exist before (created through the export) are outside the property", "sizes after arbitrary histories are not examined"]
 
 
